@@ -7,6 +7,9 @@
 // them in the order the schedule dictates (seeded random / exhaustive); the squashing closures are the real
 // ones (real files are merged); tier2 jobs are played by a fake worker that leaves the files a real job leaves.
 //
+// g=<p|d>:<K>:<store stages>:<init of x>:<start>:<hand-off>:<stop>[:i]   (":i": the output module x is a block-index
+// module; idx=1 then)
+//
 // Case line:  RUN g=<generator cfg> w=<workers> k= st= bs= we= re= start= xi= idx= fix=7 files=<seeds> sched=<choices> v=<0|1>
 //
 //	(fix= tells the model which code it is compared with: 7 = the repository at HEAD, i.e. with the three
@@ -37,6 +40,12 @@ var out *common.Out
 // contains (7 = the repository at HEAD; 4 = before d60dce44/9da4cc23, 0 = before 38ce9883: `-extra fix=N` when the
 // harness is built against an older checkout)
 var fixFlag = "7"
+
+// genDevIdx (-extra devidx=1): also generate DEVELOPMENT-mode requests whose output is a block-index module.  Off by
+// default: on such a request the code under test panics (nil dereference in Stages.LastStageCompleted: no mapper
+// stage is scheduled in development mode, mapSegmenter is nil) as soon as the stores are complete - reported as a
+// finding; the witness replays through -replay whatever this switch says.
+var genDevIdx = false
 
 var fixRe = regexp.MustCompile(` fix=\d+ `)
 
@@ -131,9 +140,10 @@ func cfgTokens(g genCfg, W int) (string, bool) {
 		}
 		st = append(st, k+strings.Join(ms, ","))
 	}
-	return fmt.Sprintf("g=%s w=%d k=%d st=%s bs=%s we=%s re=%s start=%d xi=%d idx=0",
+	// idx: what NewStages reads (execGraph.OutputModule().GetKindBlockIndex() != nil)
+	return fmt.Sprintf("g=%s w=%d k=%d st=%s bs=%s we=%s re=%s start=%d xi=%d idx=%d",
 		g.String(), W, g.K, strings.Join(st, ";"), rangeStr(p.BuildStores), rangeStr(p.WriteExecOut), rangeStr(p.ReadExecOut),
-		g.Start, inits["x"]), true
+		g.Start, inits["x"], b2i(graph.OutputModule().GetKindBlockIndex() != nil)), true
 }
 
 func kvOf(toks []string, key string) string {
@@ -494,6 +504,28 @@ func genConfig(r *common.Rng, maxStages, maxSegs int) genCfg {
 			g.Stop = g.Hand
 		}
 	}
+	// about one configuration in four asks for a block-index module as output: tier1 builds no cached-output walker and
+	// the scheduler itself waits for the last stage (cmdShutdownWhenComplete / LastStageCompleted)
+	if idx := r.Chance(1, 4); idx && (g.Prod || genDevIdx) {
+		// exec.computeLowestInitBlock leaves block-index modules out: the planner refuses a start block below the lowest
+		// initial block of the OTHER modules (the first streamable block, 0, when x is the only module)
+		low := uint64(0)
+		if len(g.Stores) > 0 {
+			low = g.Stores[0][0]
+			for _, st := range g.Stores {
+				for _, m := range st {
+					low = min(low, m)
+				}
+			}
+		}
+		if low < g.Hand {
+			g.Idx = true
+			g.Start = max(g.Start, low)
+			if g.Stop <= g.Start {
+				g.Stop = g.Hand
+			}
+		}
+	}
 	return g
 }
 
@@ -660,12 +692,22 @@ func randomRun(r *common.Rng, g genCfg, W int, seeds []fileSeed, bound int) {
 	emit(prefix+" sched="+schedString(cs)+" v=0", true)
 }
 
+// countIdx: distribution of the output module's kind over the emitted cases
+func countIdx(line string) {
+	if strings.Contains(line, " idx=1 ") {
+		out.Count("idx:1(block-index output)")
+	} else {
+		out.Count("idx:0(map output)")
+	}
+}
+
 func emit(line string, nontrivial bool) {
 	ans, p := common.Recover(func() string { return runLine(line, true) })
 	if p {
 		report("C05/harness-panic", "harness panicked while replaying", line)
 	}
 	out.Case(line, ans, nontrivial)
+	countIdx(line)
 	toks := strings.Fields(ans)
 	out.Count("end:" + kvOf(toks, "end"))
 	steps, _ := strconv.Atoi(kvOf(toks, "steps"))
@@ -858,6 +900,7 @@ func (e *explorer) leaf(r *runner, path []choice) {
 	r.o.finish()
 	line := e.prefix + " sched=" + schedString(path) + " v=0"
 	out.Case(line, answerOf(r.w, r.h, r.last, nil), len(path) > 0)
+	countIdx(line)
 	out.Count("end:" + endString(r.w))
 	r.w.close()
 }
@@ -977,6 +1020,9 @@ func exhaustive(g genCfg, W int, seeds []fileSeed, budget int) {
 	}
 	out.Case(e.exploreLine(), ans, true)
 	out.Count("explore:configs")
+	if g.Idx {
+		out.Count("explore:configs:idx=1")
+	}
 	out.Dist["explore:states"] += len(e.visited)
 	out.Dist["explore:leaves"] += e.leaves
 }
@@ -1014,7 +1060,7 @@ func main() {
 		fsRoot = d
 	}
 	defer os.RemoveAll(fsRoot)
-	out.Rule = "a case = (module graph with 1..3 stages, 1..2 stores per stage, any initial blocks; request range of 1..4 segments (quick: up to 6 in random runs); production or development mode; 1..3 workers; any subset of the snapshot files a previous request can leave; a schedule = the order in which the in-flight commands are executed and their messages delivered, plus when the 4 s ramp-up elapses). Exhaustive over schedules (state-hash visited set, batch unwrapping first) for the small grids, seeded random otherwise. Non-trivial = the run performs at least one step; distinct by case line"
+	out.Rule = "a case = (module graph with 1..3 stages, 1..2 stores per stage, any initial blocks, the output module a map or - about one configuration in four, production mode - a block-index module (idx=1: no cached-output walker); request range of 1..4 segments (quick: up to 6 in random runs); production or development mode; 1..3 workers; any subset of the snapshot files a previous request can leave; a schedule = the order in which the in-flight commands are executed and their messages delivered, plus when the 4 s ramp-up elapses). Exhaustive over schedules (state-hash visited set, batch unwrapping first) for the small grids, seeded random otherwise. Non-trivial = the run performs at least one step; distinct by case line"
 	defer out.Finish()
 	_ = stage.UnitPending
 
@@ -1048,6 +1094,8 @@ func main() {
 				budget = n
 			case "fix":
 				fixFlag = p[1]
+			case "devidx":
+				genDevIdx = n != 0
 			}
 		}
 	}
@@ -1072,7 +1120,9 @@ func main() {
 	}
 
 	// corpus: F15's graph (DESIGN §9) and the repository's own test grid
-	corpus := []string{"p:10:5/25:25:25:70:70", "p:10:5/5:5:5:50:50", "p:10:5/5:5:30:90:90", "d:10:0/0:0:35:30:40", "p:10:0:0:0:30:30", "p:10:-:0:5:30:30"}
+	// (":i" = the same graph with a block-index module as output)
+	corpus := []string{"p:10:5/25:25:25:70:70", "p:10:5/5:5:5:50:50", "p:10:5/5:5:30:90:90", "d:10:0/0:0:35:30:40", "p:10:0:0:0:30:30", "p:10:-:0:5:30:30",
+		"p:10:0:0:0:30:30:i", "p:10:5/5:5:5:50:50:i", "p:10:-:0:5:30:30:i"}
 	for _, c := range corpus {
 		g := parseGen(c)
 		for W := 1; W <= 3; W++ {
@@ -1096,6 +1146,14 @@ func main() {
 		{"p:10:30:0:0:20:20", 1, "-"},              // the store starts after the hand-off: stage index shift (F21)
 		{"d:10:0/0:0:15:20:20", 2, "F0.0:0-20"},    // F20
 		{"d:10:0/0/0:0:15:20:20", 2, "P2.0:10-20"}, // F19: invalid transition Shadowed -> PartialPresent
+		// block-index output: one store stage + the index stage, two segments (the last store merge may finish before or
+		// after the last index job: the shutdown condition must be looked at again in both orders); no store at all; the
+		// store cached, the index files missing; F15's graph
+		{"p:10:0:0:0:20:20:i", 1, "-"},
+		{"p:10:0:0:0:20:20:i", 2, "-"},
+		{"p:10:-:0:5:30:30:i", 2, "-"},
+		{"p:10:0:0:0:20:20:i", 1, "F0.0:0-10,F0.0:0-20"},
+		{"p:10:5/25:25:25:40:40:i", 1, "-"},
 	}
 	if o.Thorough() {
 		corpusExh = append(corpusExh, exh{"p:10:5/5:5:5:30:30", 1, "-"}, exh{"p:10:5/25:25:25:40:40", 2, "-"}, exh{"p:10:0/0/0:0:6:30:30", 2, "-"}, exh{"p:10:5/5:5:5:30:30", 2, "-"},
@@ -1120,6 +1178,9 @@ func main() {
 		}
 		randomRun(r, g, r.Range(1, 3), seeds, 6000)
 		out.Count(fmt.Sprintf("cfg:stages=%d", len(g.Stores)+1))
+		if g.Idx {
+			out.Count("cfg:idx=1")
+		}
 	}
 	for n := 0; n < nExh; n++ {
 		r := rng.Fork()
